@@ -159,10 +159,12 @@ def shard(ctx: runner.Ctx) -> None:
     n_java = _share(max(1, int(totals["java"] * scale)), ctx.nshards, ctx.shard)
     n_cpp = _share(max(1, int(totals["cpp"] * scale)), ctx.nshards, ctx.shard, from_end=True)
     only = os.environ.get("VERIF_C09_TARGETS")  # development aid: e.g. "typescript" or "java,cpp"
-    if only:
-        keep = set(only.split(","))
+    keep = set(only.split(",")) if only else None
+    if keep is not None:
         n_java = n_java if "java" in keep else 0
         n_cpp = n_cpp if "cpp" in keep else 0
+        if "typescript" not in keep:
+            n_ts = n_java + n_cpp
     n_inst = N_INST[ctx.tier]
     # every 5th Java / C++ model keeps the constructs on which the generated SDK is known not to build
     # ("javanum", "cppraw"), so that those findings stay visible; the others are explored behind them
@@ -172,6 +174,8 @@ def shard(ctx: runner.Ctx) -> None:
             ("ts", max(0, n_ts - n_java - n_cpp))]
 
     def one(case: Dict[str, Any]) -> None:
+        if keep is not None:
+            case["targets"] = sorted(keep)
         for b, m in evaluate(case, ctx.scratch, ctx):
             ctx.fail(b, case, m)
 
